@@ -55,7 +55,7 @@ type material struct {
 	sm9Sig, sm9Ct, sm9Wrapped          []byte
 	sm9WrapKey                         []byte
 	gcmCt, gcmNonce                    []byte
-	poolPEM, interPEM, leafDER         []byte
+	poolPEM, interPEM, leafDER, leafBDER []byte
 	when                               time.Time
 }
 
@@ -77,6 +77,7 @@ type objset struct {
 	roots      *smx509.CertPool
 	inters     *smx509.CertPool
 	leaf       *smx509.Certificate
+	leafB      *smx509.Certificate
 }
 
 const hid = 0x01
@@ -140,6 +141,9 @@ func buildMaterial(r *mon.Rand) *material {
 			NotBefore: m.when.Add(-time.Hour * 24), NotAfter: m.when.Add(time.Hour * 24 * 365),
 			BasicConstraintsValid: true, IsCA: ca, SignatureAlgorithm: smx509.SM2WithSM3}
 		if ca {
+			// explicit key identifiers: children then carry an authority key identifier, which is what the pool uses to
+			// order same-name candidates
+			t.SubjectKeyId = []byte{byte(serial), 0xc2, 0x00, byte(serial >> 8)}
 			t.KeyUsage = x509.KeyUsageCertSign
 		} else {
 			t.KeyUsage = x509.KeyUsageDigitalSignature
@@ -154,8 +158,18 @@ func buildMaterial(r *mon.Rand) *material {
 	must(err)
 	m.leafDER, err = smx509.CreateCertificate(script(seed, "leaf"), lt, it, &leafK.PublicKey, intK)
 	must(err)
-	m.poolPEM = pem.EncodeToMemory(&pem.Block{Type: "CERTIFICATE", Bytes: rootDER})
-	m.interPEM = pem.EncodeToMemory(&pem.Block{Type: "CERTIFICATE", Bytes: interDER})
+	// a second root with the SAME subject and another key (key rollover) with its own intermediate and leaf: the
+	// pool's by-name index then holds two candidates for one name, which is where candidate ordering happens
+	rootBK, intBK, leafBK := mk(scalar(r)), mk(scalar(r)), mk(scalar(r))
+	rbt, ibt, lbt := tmpl("c20 root", true, 11), tmpl("c20 inter", true, 12), tmpl("c20 leaf B", false, 13)
+	rootBDER, err := smx509.CreateCertificate(script(seed, "rootB"), rbt, rbt, &rootBK.PublicKey, rootBK)
+	must(err)
+	interBDER, err := smx509.CreateCertificate(script(seed, "interB"), ibt, rbt, &intBK.PublicKey, rootBK)
+	must(err)
+	m.leafBDER, err = smx509.CreateCertificate(script(seed, "leafB"), lbt, ibt, &leafBK.PublicKey, intBK)
+	must(err)
+	m.poolPEM = append(pem.EncodeToMemory(&pem.Block{Type: "CERTIFICATE", Bytes: rootDER}), pem.EncodeToMemory(&pem.Block{Type: "CERTIFICATE", Bytes: rootBDER})...)
+	m.interPEM = append(pem.EncodeToMemory(&pem.Block{Type: "CERTIFICATE", Bytes: interDER}), pem.EncodeToMemory(&pem.Block{Type: "CERTIFICATE", Bytes: interBDER})...)
 	return m
 }
 
@@ -210,6 +224,8 @@ func (m *material) cold() *objset {
 			panic("c20 setup: AppendCertsFromPEM failed")
 		}
 		o.leaf, err = smx509.ParseCertificate(m.leafDER)
+		must(err)
+		o.leafB, err = smx509.ParseCertificate(m.leafBDER)
 		must(err)
 	}
 	return o
@@ -330,6 +346,82 @@ var ops = []op{
 		defer ke.Destroy()
 		return res(ke.InitKeyExchange(script(s, "i"), hidEnc))
 	}},
+	// operations on objects that only this goroutine knows: their first use runs concurrently with the first use of
+	// OTHER objects, which exposes scratch space shared between objects (package-level buffers, pools)
+	{"own sm2 key: NewPrivateKey+first SignASN1+VerifyASN1", func(o *objset, m *material, s uint64) []byte {
+		k, err := sm2.NewPrivateKey(scalar(mon.NewRand(s, "own-sm2")))
+		if err != nil {
+			return res(nil, err)
+		}
+		sig, err := sm2.SignASN1(script(s, "own-sm2-sig"), k, m.hash, nil)
+		if err != nil {
+			return res(nil, err)
+		}
+		return append(sig, bl(sm2.VerifyASN1(&k.PublicKey, m.hash, sig))...)
+	}},
+	{"own sm2 key: first Encrypt+Decrypt (300 bytes)", func(o *objset, m *material, s uint64) []byte {
+		r := mon.NewRand(s, "own-sm2-enc")
+		k, err := sm2.NewPrivateKey(scalar(r))
+		if err != nil {
+			return res(nil, err)
+		}
+		msg := r.Bytes(r.Range(257, 480))
+		ct, err := sm2.Encrypt(script(s, "own-sm2-k"), &k.PublicKey, msg, nil)
+		if err != nil {
+			return res(nil, err)
+		}
+		pt, err := k.Decrypt(nil, ct, nil)
+		if err != nil {
+			return res(nil, err)
+		}
+		return append(ct, bl(bytes.Equal(pt, msg))...)
+	}},
+	{"own ecdh key: NewPrivateKey+PublicKey+ECDH", func(o *objset, m *material, s uint64) []byte {
+		k, err := ecdh.P256().NewPrivateKey(scalar(mon.NewRand(s, "own-ecdh")))
+		if err != nil {
+			return res(nil, err)
+		}
+		sh, err := k.ECDH(o.ecdhPeer)
+		return res(append(k.PublicKey().Bytes(), sh...), err)
+	}},
+	{"own sm9 user key: first SignASN1+VerifyASN1", func(o *objset, m *material, s uint64) []byte {
+		uid := []byte(fmt.Sprintf("own-%x", s))
+		mk, err := sm9.UnmarshalSignMasterPrivateKeyASN1(m.signMasterDER)
+		if err != nil {
+			return res(nil, err)
+		}
+		uk, err := mk.GenerateUserKey(uid, hid)
+		if err != nil {
+			return res(nil, err)
+		}
+		sig, err := sm9.SignASN1(script(s, "own-sm9-sig"), uk, m.hash)
+		if err != nil {
+			return res(nil, err)
+		}
+		return append(sig, bl(sm9.VerifyASN1(mk.PublicKey(), uid, hid, m.hash, sig))...)
+	}},
+	{"own sm4 block: NewCipher+NewGCM+Seal/Open", func(o *objset, m *material, s uint64) []byte {
+		r := mon.NewRand(s, "own-sm4")
+		b, err := sm4.NewCipher(r.Bytes(16))
+		if err != nil {
+			return res(nil, err)
+		}
+		a, err := cipher.NewGCM(b)
+		if err != nil {
+			return res(nil, err)
+		}
+		n, pt := r.Bytes(12), r.Bytes(r.Range(0, 400))
+		ct := a.Seal(nil, n, pt, m.uid)
+		back, err := a.Open(nil, n, ct, m.uid)
+		if err != nil || !bytes.Equal(back, pt) {
+			return []byte("ERR:own GCM does not open its own output")
+		}
+		return ct
+	}},
+	{"sm3.Kdf (>= 8 blocks, not a multiple of 4)", func(o *objset, m *material, s uint64) []byte {
+		r := mon.NewRand(s, "kdf8")
+		return sm3.Kdf(r.Bytes(r.Range(1, 130)), 32*r.Range(8, 20)+r.Range(1, 95))
+	}},
 	{"sm4.Block.Encrypt/Decrypt", func(o *objset, m *material, s uint64) []byte {
 		r := mon.NewRand(s, "j")
 		buf := r.Bytes(16)
@@ -407,7 +499,11 @@ var ops = []op{
 		return sm3.Kdf(r.Bytes(r.Range(1, 100)), r.Range(1, 400))
 	}},
 	{"smx509.Verify(shared pools)", func(o *objset, m *material, s uint64) []byte {
-		chains, err := o.leaf.Verify(smx509.VerifyOptions{Roots: o.roots, Intermediates: o.inters, CurrentTime: m.when})
+		leaf := o.leaf
+		if s&1 == 1 {
+			leaf = o.leafB
+		}
+		chains, err := leaf.Verify(smx509.VerifyOptions{Roots: o.roots, Intermediates: o.inters, CurrentTime: m.when})
 		if err != nil {
 			return res(nil, err)
 		}
@@ -504,6 +600,21 @@ func oneRound(c *mon.Case, kind string) {
 	if kind == "process-singletons" {
 		singletonRound(c, ng)
 		return
+	}
+	// every third round is pool-heavy: each goroutine verifies a leaf against the shared pools, leaves of the two
+	// same-subject roots alternating, so that candidate selection for one name runs concurrently in both directions
+	if c.R.Intn(3) == 0 {
+		vi := -1
+		for i := range ops {
+			if ops[i].name == "smx509.Verify(shared pools)" {
+				vi = i
+			}
+		}
+		for g := range lists {
+			for _, k := range []int{0, len(lists[g]) - 1} {
+				lists[g][k] = call{op: vi, seed: c.R.Uint64()&^1 | uint64((g+k)&1)}
+			}
+		}
 	}
 	outs := make([]outcome, ng)
 	var wg sync.WaitGroup
